@@ -419,6 +419,8 @@ def build(recipe) -> Built:
                 if "not invertible" not in str(e):
                     raise
                 new = None  # documented by CircuitOperation: negative repetitions of a non-invertible circuit
+            except TypeError:
+                new = None  # TaggedOperation.__pow__ of a non-invertible sub-operation (python's unsupported-operand error)
             if new is None:
                 b.skipped.append("inv:none")
                 continue
@@ -530,6 +532,9 @@ def build(recipe) -> Built:
                     if "not invertible" not in str(e):
                         raise
                     invertible = False
+                except TypeError:
+                    # TaggedOperation.__pow__ lets python's "unsupported operand" TypeError escape cirq.inverse(default)
+                    invertible = False
                 if not invertible:
                     b.skipped.append("circ:not_invertible")
                     reps = -reps
@@ -539,7 +544,12 @@ def build(recipe) -> Built:
                 new = cirq.CircuitOperation(fc).repeat(reps)
             else:
                 new = cirq.CircuitOperation(fc, repetitions=reps)
-            if inner.is_unitary:
+            if inner.is_unitary and reps < 0 and fam.name in PHASELESS_POW:
+                r2 = _restart(b, inner, new, np.linalg.matrix_power(inner.unitary, reps))
+                if r2 is None:
+                    continue
+                ref = r2
+            elif inner.is_unitary:
                 ref = Ref.of_unitary(inner.qubits, np.linalg.matrix_power(inner.unitary, reps))
             else:
                 acc = inner
